@@ -2,7 +2,7 @@
    The oracle holds the values of the numeric maps recomputed by the harness from the recorded
    arguments; the model recomputes the arguments exactly and both are compared. *)
 From Coq Require Import List ZArith QArith Qabs Bool Arith Floats String Ascii.
-From EpyV Require Import Lib.Prelude Model.Kernel Model.Pulse Tie.Kernel.
+From EpyV Require Import Lib.Prelude Model.Kernel Model.Pulse Tie.Kernel Proofs.PulseRun.
 Import ListNotations.
 Open Scope Q_scope.
 
@@ -98,6 +98,11 @@ Definition inv_b (cfg : pcfg) (s : st pworld) : bool :=
   && Nat.eqb (List.length (filter e_live (queue s))) (List.length (pc_nodes cfg))
   && Nat.eqb (List.length (ids s)) (pw_nposted (world s)).
 
+(* the hypothesis of the C20 theorems on the oracle (Proofs.PulseRun.good_b_good: good (fun x => x + eps)): every
+   posting time handed to the model is not before the caller's time and at most 5e-6 (+1e-12) above the exact
+   argument; checked on every run, whatever rounding the implementation applies *)
+Definition rounding_slack : Q := 5000001 # 1000000000000.
+
 Definition check_case (c : case_t) : bool :=
   let r := model_run c in
   let s := r_final r in
@@ -105,6 +110,7 @@ Definition check_case (c : case_t) : bool :=
   o_ok c && negb (r_stuck r) && negb (pw_bad w)
   && Nat.eqb (List.length (pw_oracle w)) 0 && Nat.eqb (List.length (pw_orders w)) 0
   && Nat.eqb (errors_of (r_out r)) 0
+  && good_b rounding_slack (pw_reqs w)
   && list_eqb arg_eqb (map (fun q => (rq_kind q, rq_arg q)) (rev (pw_reqs w))) (o_args c)
   && list_eqb snap_eqb (queries_of (r_out r)) (o_snaps c)
   && list_eqb tap_eqb (taps_of (r_out r)) (o_taps c)
@@ -124,7 +130,7 @@ Definition diagnose (c : case_t) : list bool :=
   let '(phis, w) := final_phases (c_cfg c) (clock s) (world s) in
   [ o_ok c; negb (r_stuck r); negb (pw_bad w);
     Nat.eqb (List.length (pw_oracle w)) 0; Nat.eqb (List.length (pw_orders w)) 0;
-    Nat.eqb (errors_of (r_out r)) 0;
+    Nat.eqb (errors_of (r_out r)) 0; good_b rounding_slack (pw_reqs w);
     list_eqb arg_eqb (map (fun q => (rq_kind q, rq_arg q)) (rev (pw_reqs w))) (o_args c);
     list_eqb snap_eqb (queries_of (r_out r)) (o_snaps c);
     list_eqb tap_eqb (taps_of (r_out r)) (o_taps c);
